@@ -26,6 +26,7 @@ PLAIN = [
     "NOP", "MV A, 0x12", "MV BA, 0x1234", "MV X, 0x12345", "MV (BP+0x10), 0x20", "MV [0x12345], (BP+0x10)",
     "MV [(BP+0x10)+0x02], A", "MV [(BP+0x10)], A", "MV (BP+0x10), [X+0x02]", "MV (BP+0x10), [X]",
     "defb 1, 2, 3", "defw 0x1234", "defl 0x012345", "defs 3", 'defm "AB"', 'defb "AB", 3', "defs 0", "",
+    "JP 0x20100", "CALL 0x10100",      # near jump / call whose target is written as a full address (page 2 / page 1)
     'defm "A\\tB"',      # a string with a backslash sequence: whatever bytes it stands for, both passes must agree on how many
 ]
 REFS = ["JP {L}", "JPZ {L}", "CALL {L}", "CALLF {L}", "JPF {L}", "MV X, {L}", "MV BA, {L}", "MV A, [{L}]", "defw {L}", "defl {L}", "defb {L}, 1",
@@ -165,6 +166,10 @@ def reference(plain: List[str], got_syms: Optional[Dict[str, int]]) -> Tuple[Dic
         m = re.fullmatch(r"(JP|JPZ|JPNZ|JPC|JPNC|CALL) (L\d+)", st.upper())
         if m and (symbols[m.group(2)] & 0xFF0000) != (a & 0xFF0000):
             # page-local jump/call to a label on another 64 KiB page (a bare number <= 0xFFFF would mean "this page")
+            raise RefError("needs-rejection: near jump/call to another page")
+        m = re.fullmatch(r"(JP|JPZ|JPNZ|JPC|JPNC|CALL) (0X[0-9A-F]+)", st.upper())
+        if m and int(m.group(2), 16) > 0xFFFF and (int(m.group(2), 16) & 0xFF0000) != (a & 0xFF0000):
+            # the same rule for a target written as a full address (a number above 0xFFFF names its page)
             raise RefError("needs-rejection: near jump/call to another page")
         r = alone(subst(st, symbols), a)
         if r[0] != "ok":
